@@ -22,7 +22,7 @@ OUTCOMES = [("ok", 4), ("refused", 3), ("unreachable", 1), ("blackhole", 1), ("n
             ("up-http-403", 1), ("up-http-garbage", 1), ("up-http-closes", 1), ("up-http-midhead", 1), ("up-http-ok", 2),
             ("up-socks-no", 1), ("up-socks-closes", 1), ("up-socks-ok", 2), ("up-socks4-no", 1), ("up-socks4-ok", 1),
             ("up-dies-after-ok", 1), ("deny", 2), ("norule", 2), ("udp-on-tcp-only", 1), ("bind", 1), ("badcmd", 1), ("badcreds", 2),
-            ("udp-assoc-timeout", 1), ("up-refused", 1)]
+            ("udp-assoc-timeout", 1), ("up-refused", 1), ("http-unsupported", 2)]
 
 
 def wchoice(rng, items):
@@ -41,6 +41,8 @@ def gen(rng, tier, i):
         socks_l = True
     if oc == "badcreds":
         lk = "socks5auth"
+    if oc == "http-unsupported" and lk not in ("http", "https", "quic"):
+        lk = rng.choice(["http", "http", "https"])
     if oc in ("bind",) and lk in ("socks4a",):
         lk = "socks4"
     if oc in ("badcmd", "udp-assoc-timeout", "udp-on-tcp-only") and lk in ("socks4", "socks4a", "socks5auth"):
@@ -69,7 +71,7 @@ def gen(rng, tier, i):
     expect = "fail"
     upstream_script = None
     # connector + rules
-    if oc in ("ok", "refused", "unreachable", "blackhole", "nxdomain", "bind", "badcmd", "badcreds", "udp-assoc-timeout"):
+    if oc in ("ok", "refused", "unreachable", "blackhole", "nxdomain", "bind", "badcmd", "badcreds", "udp-assoc-timeout", "http-unsupported"):
         sc.add_direct("d")
         sc.rule("d")
     elif oc == "deny":
@@ -103,8 +105,8 @@ def gen(rng, tier, i):
     elif oc == "nxdomain":
         host = "nosuch.sim"
         sc.dns[host] = []
-    elif oc in ("deny", "norule", "refused", "bind", "badcmd", "badcreds"):
-        if oc in ("deny", "norule", "bind", "badcmd", "badcreds"):
+    elif oc in ("deny", "norule", "refused", "bind", "badcmd", "badcreds", "http-unsupported"):
+        if oc in ("deny", "norule", "bind", "badcmd", "badcreds", "http-unsupported"):
             # an origin exists: it must never be contacted
             sc.add_origin("%s:%d" % (oip, oport), default_ops=[op("recv_eof", timeout_ms=200000)], oid="origin")
     elif oc in ("udp-on-tcp-only", "udp-assoc-timeout"):
@@ -164,6 +166,16 @@ def gen(rng, tier, i):
         sc.dns[host] = [oip]
     udp = oc in ("udp-on-tcp-only", "udp-assoc-timeout")
     hs, proto = sc.client_handshake(li, host if not (udp and socks_l) else "0.0.0.0", oport if not (udp and socks_l) else 0, variant=variant, creds=creds, udp=udp)
+    if oc == "http-unsupported":
+        # a request the HTTP-style listeners do not support: another method, or CONNECT for an unknown Proxy-Protocol
+        tgt = "%s:%d" % (oip, oport)
+        bad = rng.choice([b"GET http://%s/ HTTP/1.1\r\nHost: %s\r\n\r\n" % (tgt.encode(), tgt.encode()),
+                          b"POST / HTTP/1.1\r\nHost: x\r\nContent-Length: 0\r\n\r\n",
+                          rc.http_connect(tgt, [("Host", tgt), ("Proxy-Protocol", rng.choice(["sctp", "icmp", "tcp6"]))]),
+                          b"OPTIONS * HTTP/1.1\r\nHost: x\r\n\r\n"])
+        for o in hs:
+            if o["op"] == "send":
+                o["hex"] = bad.hex()
     if oc in ("bind", "badcmd"):
         # rewrite the command byte of the request
         cmd = 2 if oc == "bind" else rng.choice([0, 4, 9, 255])
@@ -297,7 +309,7 @@ def oracle(plan, out):
         v("failure-despite-upstream", "upstream path was established (%s) but the client got %s (%s)" % (meta["oc"], kind, detail))
     elif kind == "none" and not up_est:
         v("no-reply", "outcome %s: the connection was closed (or left open) without any failure reply in the client's protocol (%s, last read %s)" % (meta["oc"], detail, last))
-    if not up_est and meta["oc"] in ("deny", "norule", "bind", "badcmd", "badcreds", "udp-on-tcp-only") and contacted:
+    if not up_est and meta["oc"] in ("deny", "norule", "bind", "badcmd", "badcreds", "udp-on-tcp-only", "http-unsupported") and contacted:
         v("upstream-contacted", "outcome %s must not open any upstream connection, but the origin was contacted %d times" % (meta["oc"], contacted))
     if not eof:
         if not (kind == "success" and meta["oc"] == "udp-assoc-timeout"):
